@@ -215,16 +215,19 @@ var rCodec = &Rule{
 	Name: "R-CODEC",
 	Doc: "slot agreement between the writer and the reader of every registered type key (E-ORIGIN in both directions): A1 the decoder's payload assertion type is the encoder's payload type; A2 a decoder that reads safeDetails[i] requires the encoder's details (explicit, or the type's SafeDetails() on the generic path) to be a fixed-position literal with more than i elements; " +
 		"A3 a decoder that uses the wire message requires a non-empty one; A4 every payload member read is written; A5 every field of the rebuilt struct is assigned from the wire (the cause from the cause argument); A6 every field of the type is read by its encoder or by SafeDetails()/Error() on the generic path; A7 for each field, the slot the decoder reads it from is a slot the encoder fills from that same field",
-	Run: runCodec,
+	Run: func(c *core.Ctx) { runCodec(c, nil) },
 }
 
-func runCodec(c *core.Ctx) {
+func runCodec(c *core.Ctx, keep func(*codecPair) bool) {
 	e := originEngine(c)
 	cc := &codecCtx{c: c, e: e}
 	shapes := GetShapes(c)
 	n := 0
 	for _, cp := range codecPairs(c) {
 		if cp.Dec == nil || cp.Dec.Blocks == nil {
+			continue
+		}
+		if keep != nil && !keep(cp) {
 			continue
 		}
 		n++
@@ -499,7 +502,11 @@ func runCodec(c *core.Ctx) {
 			}
 		}
 	}
-	c.Min("registered (type, writer, reader) triples", n, 28)
+	if keep == nil {
+		c.Min("registered (type, writer, reader) triples", n, 28)
+	} else {
+		c.Min("registered (type, writer, reader) triples in scope", n, 1)
+	}
 }
 
 func isModuleType(t types.Type) bool {
